@@ -10,7 +10,7 @@ Not decided: decode(encode(d)) == d."""
 import re
 
 from .. import cfg, rules, flow
-from ..cfg import graph, expr_operand, show, peel, peel_calls
+from ..cfg import graph, expr_operand, show, nshow, peel, peel_calls
 
 DOC = "radicle::identity::doc::"
 
@@ -42,6 +42,7 @@ def run(ctx):
     saved = (ctx.explanation, ctx.not_decided, ctx.rule_text)
     c18.run(ctx)
     ctx.explanation, ctx.not_decided, ctx.rule_text = saved
+    verified_passthrough(ctx)
 
 
 def _run(ctx):
@@ -302,3 +303,45 @@ def _from_ok_of(e, pat):
             continue
         break
     return cfg.callee_is(e, r)
+
+
+def verified_passthrough(ctx, prefix="doc"):
+    """`RawDoc::verified` validates, it does not rewrite: every field of the resulting `Doc` is the corresponding field of
+    the raw document, moved as is, or the validated wrapper built from exactly that field (`Delegates::new(delegates)`,
+    `Threshold::new(threshold, ..)`).  A field that is recomputed (a filtered allow list, a clamped threshold) makes the
+    decoded document differ from the encoded one, and its canonical encoding — hence ids and signatures over it — changes."""
+    from .. import pathsum
+    db = ctx.db
+    fn = db.one(r"^radicle::identity::doc::RawDoc::verified$")
+    if fn is None:
+        ctx.violated("%s:anchor:verified" % prefix, "RawDoc::verified not found (anchor missing)")
+        return
+    ss = pathsum.summaries(db, fn, 256)
+    if not ss:
+        ctx.ob("%s:flow:verified:passthrough" % prefix, "inconclusive", "RawDoc::verified is not a small loop-free function any more", rules.where(fn))
+        return
+    oks = 0
+    bad = []
+    for p, facts, ret in ss:
+        e = peel(ret) if ret is not None else None
+        if not (e is not None and e[0] == "agg" and isinstance(e[1], dict) and e[1].get("var") == "Ok" and e[2]):
+            continue
+        d = peel(e[2][0])
+        if not (d[0] == "agg" and isinstance(d[1], dict) and d[1].get("adt", "").endswith("identity::doc::Doc")):
+            bad.append("Ok value is not a Doc aggregate")
+            continue
+        oks += 1
+        names = d[1].get("fields") or []
+        for i, x in enumerate(d[2]):
+            nm = names[i] if i < len(names) else str(i)
+            s = nshow(x)
+            if s == "arg1.%s" % nm:
+                continue
+            if nm == "delegates" and re.search(r"Delegates::new\(arg1\.delegates\)\) as Continue\.0$", s):
+                continue
+            if nm == "threshold" and re.search(r"Threshold::new\(arg1\.threshold, .*Delegates::new\(arg1\.delegates\)", s):
+                continue
+            bad.append("field `%s` is %s" % (nm, s[:120]))
+    ctx.check("%s:flow:verified:passthrough" % prefix, oks >= 1 and not bad,
+              "RawDoc::verified passes every field of the document through unchanged (or wraps exactly that field in its validated type)%s" % (
+                  (": " + "; ".join(bad[:2])) if bad else ""), rules.where(fn), fn=fn)
